@@ -144,7 +144,10 @@ def run_shard(spec, acc):
                 monitors.c19_one_to_one(world, rec, acc, {})
             g = gen.Gen(world, rng, prof, on_job)
             op = rng.choice([None, gen.OPENERS['two_prs_same_base'],
-                             gen.OPENERS['dest_moves_while_open']])
+                             gen.OPENERS['dest_moves_while_open'],
+                             gen.OPENERS['batch_merge'],
+                             gen.OPENERS['batch_merge'],
+                             gen.OPENERS['conflict_on_later_target']])
             if op:
                 op(g)
             g.walk(jobs // 2)
